@@ -491,13 +491,22 @@ def run_close(hist, obj, p_close, p_second, ack_first):
         waits = []
         target = [None]
         held = [False]
+        seen = [None]            # the application's reference to object 1 (kept after Tor reported it gone)
+        answers = []             # Tor's answer to each close command, decided when Tor receives it
+        impl.sim.sticky[cmd] = lambda line: answers.pop(0) if answers else (250, [('line', 'OK')])
         for i, (label, ev, line) in enumerate(hist + (('END', None, None),)):
             for p in (p_close, p_second):
                 if p is not None and p == i:
                     o = (impl.state.circuits if obj == 'circuit' else impl.state.streams).get(1)
+                    after_gone = False
+                    if o is None and i_end is not None and i > i_end and seen[0] is not None and target[0] in (None, seen[0]):
+                        # requested on the object the application still holds, after Tor reported it gone
+                        o = seen[0]
+                        after_gone = True
                     if o is None or (target[0] is not None and o is not target[0]):
-                        return None        # only requests on an object Tor still has are explored
+                        return None        # (an id Tor has re-used for a new object is another object)
                     target[0] = o
+                    answers.append((552, [('line', 'Unknown %s "1"' % obj)]) if after_gone else (250, [('line', 'OK')]))
                     if not ack_first:
                         impl.sim.hold_prefixes = [cmd]
                         held[0] = True
@@ -505,17 +514,20 @@ def run_close(hist, obj, p_close, p_second, ack_first):
                         # somebody else waits for the same circuit to be gone while the close request is in flight
                         waits.append((i, DRec(o.when_closed())))
                     d = o.close()
-                    recs.append((i, DRec(d)))
+                    recs.append((i, DRec(d), after_gone))
                     impl.sim.pump()
             if ev is None:
                 break
             impl.event(ev, line)
+            if i_end is None or i <= i_end:
+                seen[0] = (impl.state.circuits if obj == 'circuit' else impl.state.streams).get(1) or seen[0]
             gone = i_end is not None and i >= i_end
-            if gone and held[0]:
+            if gone and held[0] and (p_second is None or p_second <= i):
+                # (a repeated request still to come arrives while the acknowledgement is outstanding)
                 impl.sim.hold_prefixes = []
                 impl.sim.pump()
                 held[0] = False
-            for ri, r in recs:
+            for ri, r, ag in recs:
                 if r.fires and not gone:
                     viol.append(('close-completed-early', '%s/%s' % (obj, 'ack-first' if ack_first else 'ack-late'),
                                  'close() requested before event %d completed after event %d (%s) although Tor has not reported the %s gone'
@@ -523,12 +535,16 @@ def run_close(hist, obj, p_close, p_second, ack_first):
         if held[0]:
             impl.sim.hold_prefixes = []
             impl.sim.pump()
-        for ri, r in recs:
+        for ri, r, ag in recs:
             n = len(r.fires)
             if n > 1:
                 viol.append(('close-fired-twice', obj, 'close() requested before event %d fired %d times' % (ri, n)))
             elif i_end is not None and n == 0:
                 which = 'first' if ri == recs[0][0] and r is recs[0][1] else 'repeated'
+                if ag:
+                    which += '-after-gone'
+                elif any(x[2] for x in recs):
+                    which += '/repeated-after-gone'
                 viol.append(('close-never-completed', '%s/%s-request' % (obj, which),
                              'close() requested before event %d never completed although event %d reported the %s gone'
                              % (ri, i_end, obj)))
@@ -545,12 +561,12 @@ def run_close(hist, obj, p_close, p_second, ack_first):
             elif i_end is None and n != 0:
                 viol.append(('wait-fired-early', 'closed/with-close-in-flight', 'circuit never reported gone'))
         sent = [c for c in impl.sim.commands if c.startswith(cmd)]
-        if len(sent) < 1:
+        if len(sent) < 1 and any(not ag for ri, r, ag in recs):
             viol.append(('close-command-missing', obj, 'no %s on the wire' % cmd))
         errs = w.errors()
         if errs:
             viol.append(('logged-error', errs[0][1], '%r' % (errs[:1],)))
-        obs = tuple((ri, r.summary()[0]) for ri, r in recs) + (tuple(sent),)
+        obs = tuple((ri, r.summary()[0]) for ri, r, ag in recs) + (tuple(sent),)
     return dict(viol=viol, obs=obs)
 
 
@@ -667,4 +683,4 @@ def meta(tier):
         assumptions=['NEWRESOLVE streams are outside this alphabet (the listener interface has no callback for them)',
                      'a listener added late hears nothing for transitions that happened before it was added',
                      'removing a global listener = unlisten() on the live objects + removal from the global list',
-                     'a close()/wait requested on an object that no longer exists in the state is not explored'])
+                     'a close() requested after Tor reported the object gone (on the reference the application still holds) must complete; Tor answers that command 552; whether it completes with success or with that error is not judged'])
